@@ -396,15 +396,37 @@ Definition frame_of_columns {A : Type} (cols : list (list A)) : result (list (li
   | [] => Ok []
   | c :: _ => if all_len (length c) cols then Ok (transpose (length c) cols) else Err E_VALUE
   end.
-Definition model_frame (cfg : config) (d : dc) : result (list (list snap)) :=
-  if is_nil (c_mreps cfg) then Err E_USERWARNING else frame_of_columns (map snd (d_mvars d)).
-(* from_records(chain(_agent_records.values()), index=[Step, AgentID]) *)
-Definition agent_frame (cfg : config) (d : dc) : result (list row) :=
-  if is_nil (c_areps cfg) then Err E_USERWARNING else Ok (concat (map snd (d_arecs d))).
-Definition type_frame (d : dc) (t : Z) : list row :=
-  flat_map (fun rec => match aget t (snd rec) with Some rows => rows | None => [] end) (d_trecs d).
-Definition table_frame (cols : list (Z * list cellv)) : result (list (list cellv)) :=
-  frame_of_columns (map snd cols).
+(* a frame with the default RangeIndex: column labels + rows (row i has index i) *)
+Record cframe (A : Type) := { cf_cols : list Z; cf_rows : list (list A) }.
+Arguments cf_cols {A}. Arguments cf_rows {A}.
+(* a frame indexed by (Step, AgentID): index names, value-column labels, rows (step, id, cells) *)
+Definition IDX_STEP : Z := 100.
+Definition IDX_AGENTID : Z := 101.
+Record aframe := { af_index : list Z; af_cols : list Z; af_rows : list row }.
+
+(* frame_of_records for the three kinds of records *)
+Definition model_frame (cfg : config) (d : dc) : result (cframe snap) :=
+  if is_nil (c_mreps cfg) then Err E_USERWARNING
+  else match frame_of_columns (map snd (d_mvars d)) with
+       | Ok rows => Ok {| cf_cols := map fst (d_mvars d); cf_rows := rows |}
+       | Err e => Err e
+       end.
+(* from_records(chain(_agent_records.values()), columns=[Step, AgentID, *reporters], index=[Step, AgentID]) *)
+Definition agent_frame (cfg : config) (d : dc) : result aframe :=
+  if is_nil (c_areps cfg) then Err E_USERWARNING
+  else Ok {| af_index := [IDX_STEP; IDX_AGENTID]; af_cols := map fst (c_areps cfg);
+             af_rows := concat (map snd (d_arecs d)) |}.
+Definition type_records (d : dc) (t : Z) : list (Z * list row) :=
+  map (fun rec => (fst rec, match aget t (snd rec) with Some rows => rows | None => [] end)) (d_trecs d).
+Definition type_frame (cfg : config) (d : dc) (t : Z) : aframe :=
+  {| af_index := [IDX_STEP; IDX_AGENTID];
+     af_cols := map fst (match aget t (c_treps cfg) with Some reps => reps | None => [] end);
+     af_rows := concat (map snd (type_records d t)) |}.
+Definition table_frame (cols : list (Z * list cellv)) : result (cframe cellv) :=
+  match frame_of_columns (map snd cols) with
+  | Ok rows => Ok {| cf_cols := map fst cols; cf_rows := rows |}
+  | Err e => Err e
+  end.
 
 (* ---- observations ---- *)
 Definition enc_list {A : Type} (f : A -> list Z) (l : list A) : list Z :=
@@ -421,11 +443,16 @@ Definition enc_dc (d : dc) : list Z :=
   ++ enc_list (fun p => fst p :: enc_list (fun q => fst q :: enc_list enc_cell (snd q)) (snd p)) (d_tables d).
 Definition enc_res {A : Type} (f : A -> list Z) (r : result A) : list Z :=
   match r with Ok a => 0 :: f a | Err k => [-1; k] end.
+Definition enc_z (z : Z) : list Z := [z].
+Definition enc_cframe {A : Type} (f : A -> list Z) (fr : cframe A) : list Z :=
+  1 :: enc_list enc_z (cf_cols fr) ++ enc_list (enc_list f) (cf_rows fr).   (* 1 = the index is 0..n-1 *)
+Definition enc_aframe (fr : aframe) : list Z :=
+  enc_list enc_z (af_index fr) ++ enc_list enc_z (af_cols fr) ++ enc_list enc_row (af_rows fr).
 Definition enc_frames (cfg : config) (d : dc) : list Z :=
-  enc_res (enc_list (enc_list enc_snap)) (model_frame cfg d)
-  ++ enc_res (enc_list enc_row) (agent_frame cfg d)
-  ++ flat_map (fun tr => fst tr :: enc_list enc_row (type_frame d (fst tr))) (c_treps cfg)
-  ++ flat_map (fun tb => fst tb :: enc_res (enc_list (enc_list enc_cell)) (table_frame (snd tb))) (d_tables d).
+  enc_res (enc_cframe enc_snap) (model_frame cfg d)
+  ++ enc_res enc_aframe (agent_frame cfg d)
+  ++ flat_map (fun tr => fst tr :: enc_aframe (type_frame cfg d (fst tr))) (c_treps cfg)
+  ++ flat_map (fun tb => fst tb :: enc_res (enc_cframe enc_cell) (table_frame (snd tb))) (d_tables d).
 Definition enc_outcome (oc : outcome) : list Z :=
   match oc with ROk => [0] | RErr k => [-1; k] | RNoop => [-2] end.
 
